@@ -276,6 +276,8 @@ def call_loops(b_holder):
             z3.Concat(ctx.g('yielded'), buf, opt_or_empty(chunk)) == pref(pos),
             # `chunk is None` iff the iterator is exhausted; then nothing is left in the buffer
             z3.Implies(t.is_none(chunk), z3.And(pos == b.n, z3.Length(buf) == 0)),
+            # the piece in hand is the one fetched last
+            z3.Implies(z3.Not(t.is_none(chunk)), z3.And(pos >= 1, t.val(chunk) == piece(pos - 1))),
         )
 
     def inv_inner(ctx):
@@ -312,6 +314,11 @@ def call_post(prop):
                 v = sym.lift(e.data['value'], BYTES).z
                 # C10.call.nonempty
                 res.oblige(pc, f'{prop}.call.chunks_nonempty', z3.Length(v) >= 1)
+            for e in p.events('buffer_extend'):
+                # the bytes appended are those of the piece fetched LAST: the piece is copied before the producer is asked
+                # for the next one (lossless for every kind of piece, also for views of a reused buffer)
+                pos = e.data['it_pos'].z
+                res.oblige(p.pc_at(e), f'{prop}.call.piece_copied_before_the_producer_advances', z3.And(pos >= 1, e.data['appended'].z == piece(pos - 1)))
             for e in p.events('next_cut'):
                 # C10.call.final_flag: final is passed iff the look-ahead found the iterator exhausted
                 nxt = p.st.lookup('next_chunk') if p.st.has('next_chunk') else None
@@ -343,9 +350,21 @@ def call_unit(prop):
         call_setup(b)
         holder['b'] = b
 
-    return Unit(f'{prop}.call', ADAPTERS_PY, 'gclmulchunker.__call__', setup, call_post(prop), loops=call_loops(holder),
-                on_yield=call_on_yield, prop=prop,
-                local_types={'params': Opt(BYTES), 'chunk': Opt(BYTES), 'next_chunk': Opt(BYTES), 'buffer': BYTES})
+    u = Unit(f'{prop}.call', ADAPTERS_PY, 'gclmulchunker.__call__', setup, call_post(prop), loops=call_loops(holder),
+             on_yield=call_on_yield, prop=prop,
+             local_types={'params': Opt(BYTES), 'chunk': Opt(BYTES), 'next_chunk': Opt(BYTES), 'buffer': BYTES})
+
+    def on_augassign(interp, st, node, cur, rhs):
+        # pieces may be views of a buffer the producer refills when it is advanced (readinto-style producers): a piece is
+        # only valid until the NEXT call of next().  Record which piece is appended to the staging buffer, and when.
+        import ast as _a
+        if isinstance(node.target, _a.Name) and node.target.id == 'buffer' and isinstance(node.op, _a.Add):
+            t = Opt(BYTES)
+            z = (t.val(rhs.z) if isinstance(rhs, SV) and rhs.ty == t else sym.lift(rhs, BYTES).z)
+            st.emit('buffer_extend', appended=SV(BYTES, z), it_pos=st.ghost['it_pos'])
+
+    u.on_augassign = on_augassign
+    return u
 
 
 # ------------------------------------------------------------------ lemmas over the two contracts
